@@ -388,3 +388,41 @@ Section InsertionCbor.
            | Ok _ => Err EPanic                                (* newRecordDigest(rec): panic(err) *)
            end.
 End InsertionCbor.
+
+(* ---- index.GetFirst, InsertionIndex.Get / Codec -------------------------------------------------------- *)
+Definition codec_insertion : N := 3145731.   (* insertionIndexCodec = 0x300003, InsertionIndex.Codec *)
+
+(* GetFirst(idx, key) = idx.GetAll(key, fn) with fn recording the offset and returning false: the
+   scan stops after the first entry *)
+Definition swi_getfirst (b : N * bytes) (d : bytes) : res N :=
+  let idx := sort_search (swi_count b) (fun i => bytes_leb d (swi_digest_at b i)) in
+  if (idx <? swi_count b) && bytes_eqb d (swi_digest_at b idx) then Ok (swi_off_at b idx)
+  else Err ENotFound.
+Definition mwi_getfirst (m : mwi) (d : bytes) : res N :=
+  match kv_get (blen d + 8) m with
+  | Some data => swi_getfirst (blen d + 8, data) d
+  | None => Err ENotFound
+  end.
+Definition mh_getfirst (m : mhidx) (code : N) (d : bytes) : res N :=
+  match kv_get code m with
+  | Some w => mwi_getfirst w d
+  | None => Err ENotFound
+  end.
+Definition idx_getfirst (i : index) (code : N) (d : bytes) : res N :=
+  match i with IdxSorted m => mwi_getfirst m d | IdxMh m => mh_getfirst m code d end.
+Definition ii_getfirst (d : bytes) (ii : iidx) : res N :=
+  match ii_with_digest d ii with
+  | r :: _ => Ok (r_off r)
+  | [] => Err ENotFound
+  end.
+
+(* InsertionIndex.Get(c) / getRecord: llrb.Get(recordDigest{digest}) returns the first node on the
+   search path that compares equal -- SOME record with that digest; which one (when several records
+   share it) depends on the shape of the tree: [choose], contract in proofs/IndexGetFirst.v.  The CID
+   of the key beyond its digest plays no part. *)
+Definition ii_get_with (choose : list irec -> option irec) (d : bytes) (ii : iidx) : res N :=
+  match choose (ii_with_digest d ii) with
+  | Some r => Ok (r_off r)
+  | None => Err ENotFound
+  end.
+Definition ii_get (d : bytes) (ii : iidx) : res N := ii_get_with (@hd_error irec) d ii.
